@@ -453,3 +453,134 @@ Section Loop.
       apply (loop_ok _ todo' (now ++ []) d2 HI' Hp'). lia.
   Qed.
 End Loop.
+
+(* ---- denotations: one induction on the ORIGINAL derivation ---- *)
+Fixpoint filt2 (R : list Z) (ids : list (option Z)) (bs : list bool) : list bool :=
+  match ids, bs with
+  | x :: ids', b :: bs' => if keepR R x then b :: filt2 R ids' bs' else filt2 R ids' bs'
+  | _, _ => []
+  end.
+
+Section Sem.
+  Variable sigma : Z -> bool.
+  Variables u0 u1 : Z.
+  Hypothesis Hcons : consistent sigma u0 u1.
+  Variables d0 d : dict vol.
+  Variable R : list Z.
+  Hypothesis HF : Final u0 u1 d0 R d.
+  Notation Vden := (Vden sigma).
+  Notation VdenL := (VdenL sigma).
+  Notation equa := (equa sigma).
+
+  Lemma vempty_equa v : vempty v = true -> equa v = false.
+  Proof.
+    unfold vempty, Spec.equa. rewrite existsb_exists. intros (p & Hp & Hm).
+    apply mem_In in Hm.
+    destruct (forallb sigma (v_plus v)) eqn:E1; [|reflexivity].
+    destruct (forallb (fun s => negb (sigma s)) (v_minus v)) eqn:E2; [|reflexivity].
+    rewrite forallb_forall in E1, E2. specialize (E1 p Hp). specialize (E2 p Hm).
+    rewrite E1 in E2. discriminate.
+  Qed.
+
+  Lemma rel_equa v v' : rel u0 u1 R v v' -> equa v' = equa v.
+  Proof.
+    unfold rel. destruct (v_ops v) as [[[|] ids]|]; try (intros ->; reflexivity).
+    intros (_ & _ & [[Hp Hm]|(Hp & Hm & He)]).
+    - unfold Spec.equa. now rewrite Hp, Hm.
+    - rewrite (vempty_equa v He). unfold Spec.equa. rewrite Hp, Hm. simpl.
+      destruct (sigma u0) eqn:E; [|reflexivity]. now rewrite (Hcons E).
+  Qed.
+
+  Lemma survivor id v : lookup id d0 = Some v -> ~ In id R ->
+    exists v', lookup id d = Some v' /\ rel u0 u1 R v v'.
+  Proof.
+    intros Hl Hn. destruct (lookup id d) as [v'|] eqn:E.
+    - destruct (iA1 _ _ _ _ _ _ HF id v' E) as (w & Hw & Hrel). rewrite Hl in Hw.
+      inversion Hw; subst w. eauto.
+    - exfalso. apply Hn. eapply (iA2 _ _ _ _ _ _ HF); eauto.
+  Qed.
+
+  Lemma removed_why id v : lookup id d0 = Some v -> In id R ->
+    is_union_ops (v_ops v) = false /\ just R v.
+  Proof.
+    intros Hl Hin. destruct (iRm _ _ _ _ _ _ HF id Hin) as (w & Hw & Hu & Hj).
+    rewrite Hl in Hw. inversion Hw; subst w. auto.
+  Qed.
+
+  Definition P0 (ids : list (option Z)) (bs : list bool) : Prop :=
+    VdenL d (filter (keepR R) ids) (filt2 R ids bs) /\
+    existsb (fun b => b) (filt2 R ids bs) = existsb (fun b => b) bs /\
+    (existsb (in_removed R) ids = true -> forallb (fun b => b) bs = false) /\
+    (existsb (in_removed R) ids = false -> VdenL d ids bs).
+
+  Lemma final_den : forall id b, Spec.Vden sigma d0 id b ->
+    (In id R -> b = false) /\ (~ In id R -> Vden d id b).
+  Proof.
+    apply (Vden_min sigma d0 (fun id b => (In id R -> b = false) /\ (~ In id R -> Vden d id b)) P0).
+    - (* plain *)
+      intros id v Hl Ho. split.
+      + intros Hin. destruct (removed_why id v Hl Hin) as [_ [He|Hi]]; [now apply vempty_equa|].
+        unfold inte_removed in Hi. rewrite Ho in Hi. discriminate.
+      + intros Hn. destruct (survivor id v Hl Hn) as (v' & Hl' & Hrel).
+        assert (v' = v) as -> by (unfold rel in Hrel; now rewrite Ho in Hrel).
+        now apply Vden_plain.
+    - (* INTE *)
+      intros id v ids bs Hl Ho _ (Ha & Hb & Hc & Hd). split.
+      + intros Hin. destruct (removed_why id v Hl Hin) as [_ [He|Hi]].
+        * now rewrite (vempty_equa v He).
+        * unfold inte_removed in Hi. rewrite Ho in Hi. rewrite (Hc Hi). apply andb_false_r.
+      + intros Hn. destruct (survivor id v Hl Hn) as (v' & Hl' & Hrel).
+        assert (v' = v) as -> by (unfold rel in Hrel; now rewrite Ho in Hrel).
+        destruct (existsb (in_removed R) ids) eqn:Ee.
+        * exfalso. apply (iS _ _ _ _ _ _ HF id v Hl'). unfold inte_removed. now rewrite Ho.
+        * eapply Vden_inte; eauto.
+    - (* UNION *)
+      intros id v ids bs Hl Ho _ (Ha & Hb & Hc & Hd). split.
+      + intros Hin. destruct (removed_why id v Hl Hin) as [Hu _]. rewrite Ho in Hu. discriminate.
+      + intros Hn. destruct (survivor id v Hl Hn) as (v' & Hl' & Hrel).
+        rewrite <- (rel_equa v v' Hrel), <- Hb.
+        unfold rel in Hrel. rewrite Ho in Hrel. destruct Hrel as (_ & [Hops|[Hnil Hops]] & _).
+        * eapply Vden_union; eauto.
+        * rewrite Hnil in Ha. inversion Ha as [Hx|]; subst. simpl. rewrite orb_false_r.
+          now apply Vden_plain.
+    - (* nil *)
+      repeat split; simpl; try constructor; try discriminate.
+    - (* cons *)
+      intros id b ids bs _ [H1 H2] _ (Ha & Hb & Hc & Hd).
+      assert (keepR R (Some id) = negb (mem id R)) as Hk by reflexivity.
+      unfold P0. cbn [filter filt2 existsb forallb in_removed]. rewrite !Hk.
+      destruct (mem id R) eqn:Em; cbn [negb orb andb].
+      + assert (b = false) as -> by (apply H1; now apply mem_In).
+        split; [exact Ha|]. split; [exact Hb|]. split; [reflexivity | discriminate].
+      + assert (~ In id R) as Hn by (intros Hi; apply mem_In in Hi; congruence).
+        split; [constructor; auto|]. split; [simpl; now rewrite Hb|]. split.
+        * intros He. rewrite (Hc He). apply andb_false_r.
+        * intros He. constructor; auto.
+  Qed.
+End Sem.
+
+(* ---- remove_empty_volumes is sound ---- *)
+Theorem remove_empty_sound u0 u1 d0 : NoDup (keys d0) ->
+  NoDup (keys (remove_empty u0 u1 d0)) /\
+  (* nothing new, FICTIVE flags kept *)
+  (forall id v', lookup id (remove_empty u0 u1 d0) = Some v' ->
+     exists v, lookup id d0 = Some v /\ v_fict v' = v_fict v) /\
+  forall sigma, consistent sigma u0 u1 ->
+    (* every surviving volume keeps its denotation *)
+    (forall id v' b, lookup id (remove_empty u0 u1 d0) = Some v' -> Vden sigma d0 id b ->
+       Vden sigma (remove_empty u0 u1 d0) id b) /\
+    (* only volumes that denote false are deleted *)
+    (forall id v b, lookup id d0 = Some v -> lookup id (remove_empty u0 u1 d0) = None ->
+       Vden sigma d0 id b -> b = false).
+Proof.
+  intros Hnd. destruct (remove_empty_final u0 u1 d0 Hnd) as (R & HF).
+  split; [exact (iK _ _ _ _ _ _ HF)|]. split.
+  - intros id v' Hl. destruct (iA1 _ _ _ _ _ _ HF id v' Hl) as (v & Hv & Hrel). exists v.
+    split; [exact Hv|]. unfold rel in Hrel.
+    destruct (v_ops v) as [[[|] ids]|]; try (now rewrite Hrel). apply Hrel.
+  - intros sigma Hcons. split.
+    + intros id v' b Hl Hv. apply (final_den sigma u0 u1 Hcons d0 _ R HF id b Hv).
+      intros Hin. rewrite (iA3 _ _ _ _ _ _ HF id Hin) in Hl. discriminate.
+    + intros id v b Hl Hn Hv. apply (final_den sigma u0 u1 Hcons d0 _ R HF id b Hv).
+      eapply (iA2 _ _ _ _ _ _ HF); eauto.
+Qed.
